@@ -58,6 +58,7 @@ __all__ = [
     "ClusterLeaveReason",
     "ClusterBreakupReason",
     "VBSClusteringManager",
+    "cluster_information_to_asn1",
 ]
 
 logger = logging.getLogger("vru_basic_service")
@@ -273,6 +274,29 @@ def _haversine_distance(lat1: float, lon1: float, lat2: float, lon2: float) -> f
     dlam = math.radians(lon2 - lon1)
     a = math.sin(dphi / 2) ** 2 + math.cos(phi1) * math.cos(phi2) * math.sin(dlam / 2) ** 2
     return r * 2.0 * math.atan2(math.sqrt(a), math.sqrt(1.0 - a))
+
+
+def cluster_information_to_asn1(container: dict) -> dict:
+    """Return *container* in the value notation expected by the VAM coder.
+
+    :meth:`VBSClusteringManager.get_cluster_information_container` describes
+    the bounding box as ``{"circular": {...}}`` and the cluster profiles as a
+    single byte.  The ASN.1 codec needs a CHOICE as ``(name, value)`` and a
+    BIT STRING as ``(bytes, number_of_bits)``; anything already in that form
+    is left untouched.  The input is not modified.
+    """
+    result = dict(container)
+    info = result.get("vruClusterInformation")
+    if isinstance(info, dict):
+        info = dict(info)
+        shape = info.get("clusterBoundingBoxShape")
+        if isinstance(shape, dict) and len(shape) == 1:
+            info["clusterBoundingBoxShape"] = next(iter(shape.items()))
+        profiles = info.get("clusterProfiles")
+        if isinstance(profiles, (bytes, bytearray)):
+            info["clusterProfiles"] = (bytes(profiles), 4)
+        result["vruClusterInformation"] = info
+    return result
 
 
 # ---------------------------------------------------------------------------
@@ -785,6 +809,9 @@ class VBSClusteringManager:
             cardinality: int = vci.get("clusterCardinalitySize", 1)
             # Extract radius from circular bounding box if present
             bbox = vci.get("clusterBoundingBoxShape")
+            if isinstance(bbox, tuple):
+                # A decoded ASN.1 CHOICE is a (name, value) pair.
+                bbox = {bbox[0]: bbox[1]}
             radius: Optional[float] = None
             if bbox and "circular" in bbox:
                 radius = float(bbox["circular"].get("radius", vam_constants.MAX_CLUSTER_DISTANCE))
